@@ -295,6 +295,14 @@ def gen_C05(seed):
     if prob["family"] in ("linear", "osc", "cosdecay") and r.random() < 0.35:
         sc = r.choice([1e3, 1e3, 1e-3, 30.0])
         prob["y0"] = [round(v * sc, 9) for v in prob["y0"]]
+    rsc_ = sub(seed, "extreme_scale")
+    if prob["family"] in ("linear", "osc", "cosdecay") and s.get("rtol") is not None and prob["dtype"] != "float32" and rsc_.random() < 0.08:
+        # the same linear problem in other units: state AND absolute tolerance scaled by 1e-25 .. 1e18 (the computed trajectory scales with
+        # them; nothing in the controller may be absolute)
+        sc = 10.0 ** rsc_.choice([-25, -18, -18, -12, 12, 18])
+        prob["y0"] = [float("%.6g" % (v * sc)) for v in prob["y0"]]
+        s["atol"] = float("%.3g" % (s["atol"] * sc))
+        scn["extreme_scale"] = sc
     if prob["family"] == "linear" and r.random() < 0.5:
         n_ = int(round(len(prob["params"]["A"]) ** 0.5))
         shift = r.choice([-3.0, -2.0, -1.0, 1.0]) * direction
